@@ -70,6 +70,12 @@ CHECKS = {
                      "and a deep snapshot of the caller's data (incl. slice capacity windows) is compared before/after.",
                 ref="DESIGN.md 6/C18", note=_NOTE + " The verdict on mutation is an observation of the real code (snapshot), hence exploration.",
                 technique="TLC-enumerated programs with model expectations + deep snapshot of caller data around two shared renders"),
+    "C05": dict(level="exploration",
+                text="The specification supplies the input spaces (token-class sequences, context value shapes x skeleton templates, structured "
+                     "corruptions of CompiledFmt encodings) and the contract (Ok or Err, engine usable afterwards); the harness observes the real "
+                     "code: no panic, no hang, no process death, probe render still correct.",
+                ref="DESIGN.md 6/C05", note=_NOTE + " Observational verdict, hence exploration.",
+                technique="TLC-enumerated input spaces (tokens / value shapes / format corruptions) + crash, hang and usability observation"),
     "C17": _c("Corpus with a spy at every callback position; every single-fault placement, loader faults, unresolved names; 6 render variants.",
               "TLA+ Exec with fault schedule (Surfaces) + TLC fault enumeration, spec-to-code replay", "DESIGN.md 6/C17"),
 }
